@@ -11,7 +11,7 @@ from typing import Any, Dict, Iterator, List
 
 ROOT = os.path.dirname(os.path.dirname(os.path.abspath(__file__)))
 sys.path.insert(0, ROOT)
-from engine import common, mbt  # noqa: E402
+from engine import common, mbt, tlc  # noqa: E402
 
 KINDS = [{"k": "cron", "t": 0}, {"k": "time", "t": 1}, {"k": "time", "t": 1}, {"k": "time", "t": 2}, {"k": "both", "t": 1}, {"k": "invalid", "t": 0}]
 
@@ -86,7 +86,13 @@ def run_part(tier: str, rep: common.Reporter) -> Dict[str, Any]:
                 rep.violation(path, f"clause {clause} false after event {idx} (family {scns[i].get('family')})")
     ctext = "SPECIFICATION TraceSpec\nCONSTANTS\n  Cfgs = {}\n  MaxOps = 1000\n  AllowedViol = {}\nINVARIANT Progress\nPOSTCONDITION Done\nCHECK_DEADLOCK FALSE\n"
     idxs = list(range(0, len(traces), max(1, len(traces) // (300 if q else 3000))))
-    cf = mbt.conform([traces[i] for i in idxs], "TraceLabel", ctext)
+    try:
+        cf = mbt.conform([traces[i] for i in idxs], "TraceLabel", ctext)
+    except tlc.TLCError as exc:
+        if not rep.violations:
+            raise
+        rep.info('conformance run failed after violations were found: ' + str(exc)[:300])
+        cf = []
     acc = sum(1 for a, b in cf if a == b)
     for (a, b), i in zip(cf, idxs):
         if a != b:
